@@ -543,7 +543,7 @@ func genGT(r *vproto.Rng, n int, emit func(string)) {
 		mode := r.Intn(10)
 		lay := layouts[r.Intn(len(layouts))]
 		gg.big = 0
-		if r.Chance(0.02) {
+		if r.Chance(0.04) {
 			gg.big = 1 // one size threshold at exactly one nesting level
 		}
 		gg.prefix = strings.Contains(lay, "x") || r.Chance(0.1)
